@@ -61,7 +61,7 @@ import (
 
 func init() {
 	register(&Suite{Name: "e2e_metrics", Parallel: 6, Gen: genE2EM, Exec: execE2EM,
-		Rule: "1..5 series (names sharing prefixes; tag sets differing in one value / one key / subsets; keys that are suffixes of other keys; TSID-preimage collision pairs; values with spaces, unicode, punctuation, JSON escapes, 65535/65536+ bytes, values sent as JSON numbers; series without tags) ingested as OpenTSDB JSON, through Prometheus remote write, or both within one series × float64 values from the adversarial Gorilla pool incl. -0 or small integers × timestamps (irregular steps at dod bucket edges, large gaps, bucket-aligned for every downsample interval used) × ingest histories with out-of-order points and 0..2 block and 0..2 segment rotations × selector and sum/min/max/avg/count by/without queries incl. range boundaries on points, regex on __name__, several matchers on one label; every fourth case: binary operators (+ - * / % ^, == != > < >= <= with and without bool, and/or/unless, default matching) between two operands (selector, selector with a matcher, aggregation) over two or three metrics whose names are prefixes of each other and that share some label sets and not others, label values over an alphabet with { } = \" \\ space unicode and the empty string, a few timestamps present on one side only; plus cardinality lines (65535..131071 series sharing one tag value); each case in its own engine process, every query answered before and after a final rotation; non-trivial = ≥2 ingested points and ≥1 query"})
+		Rule: "1..5 series (names sharing prefixes; tag sets differing in one value / one key / subsets; keys that are suffixes of other keys; TSID-preimage collision pairs; values with spaces, unicode, punctuation, JSON escapes, 65535/65536+ bytes, values sent as JSON numbers; series without tags) ingested as OpenTSDB JSON, through Prometheus remote write, or both within one series × float64 values from the adversarial Gorilla pool incl. -0 or small integers × timestamps (irregular steps at dod bucket edges, large gaps, bucket-aligned for every downsample interval used) × ingest histories with out-of-order points and 0..2 block and 0..2 segment rotations × selector and sum/min/max/avg/count by/without queries incl. range boundaries on points, regex on __name__, several matchers on one label; every fourth case: binary operators (+ - * / % ^, == != > < >= <= with and without bool, and/or/unless, default matching) between two operands (selector, selector with a matcher, aggregation) over two or three metrics whose names are prefixes of each other and that share some label sets and not others, label values over an alphabet with { } = \" \\ space unicode and the empty string, a few timestamps present on one side only; plus expressions (query token bx: scalar operands on either side incl. computed scalars, unary minus, on()/ignoring() over subsets of the keys for arithmetic, comparisons and and/or/unless, nesting up to depth 3, label values h-1 /api a.b 10.0.0.1:9100 *, zero divisors); plus (second metrics round) the label value \"*\" with matchers k=\"*\" / k!=\"*\", metric names and tag values spelled with and without a JSON escape within one series, tag values that are not strings or numbers (true / null / invalid escape: must be rejected whole), label-values requests through the HTTP handler, and crash + restart inside the history (WAL timers run once, process killed, recovery in a new process on the same data directory; mostly right after a pass of the tags-tree flush timer); plus cardinality lines (65535..131071 series sharing one tag value); each case in its own engine process(es), every query answered before and after a final rotation; non-trivial = ≥2 ingested points and ≥1 query"})
 }
 
 type mkv struct {
@@ -251,7 +251,8 @@ func genE2EM(r *rand.Rand, n int, tier string) []string {
 }
 
 var mBinNames = [][]string{{"hits", "hits_total", "errs"}, {"m", "mm", "m_x"}, {"http_requests", "http", "http_requests_total"}, {"cpu", "cpu_t", "cp"}, {"a", "ab", "b"}}
-var mBinVals = []string{"h1", "h2", "h1", "/health", "/api/{id}", "/api/{id}/x", "{", "}", "{}", "}{", "a=b", `q"t`, `b\s`, " ", "sp ace", "ü", "日本", "", "x:y", "m{", "{id}", "1"}
+var mBinVals = []string{"h1", "h2", "h1", "/health", "/api/{id}", "/api/{id}/x", "{", "}", "{}", "}{", "a=b", `q"t`, `b\s`, " ", "sp ace", "ü", "日本", "", "x:y", "m{", "{id}", "1",
+	"h-1", "h-2", "/api", "a.b", "a.c", "*", "h1", "h2", "eu-west-1", "10.0.0.1:9100"}
 var mBinOps = []string{"add", "sub", "mul", "div", "mod", "pow", "eq", "ne", "gt", "lt", "ge", "le", "and", "or", "unless", "div", "sub", "and", "unless", "or"}
 
 // BINARY-OPERATOR case: two or three metrics (names that are prefixes of each other) over a common pool of tag sets, so that
@@ -406,6 +407,99 @@ func genE2EMBinCase(r *rand.Rand) string {
 		}
 		qtoks = append(qtoks, fmt.Sprintf("bin!%s!%s!%d!%d!%s!%s", op, b, a, e, operand(ln), operand(rn)))
 	}
+	// EXPRESSIONS: scalar operands (also on the left, also computed), unary minus, on()/ignoring() over subsets of the keys
+	// (arithmetic, comparisons and the set operators), nesting up to depth 3, at most 3 vector operands
+	isCmp := func(op string) bool { return op == "eq" || op == "ne" || op == "gt" || op == "lt" || op == "ge" || op == "le" }
+	isSet := func(op string) bool { return op == "and" || op == "or" || op == "unless" }
+	scalar := func() string {
+		switch r.Intn(8) {
+		case 0:
+			return "s!0!1"
+		case 1:
+			return []string{"s!1!2", "s!5!2", "s!3!4"}[r.Intn(3)]
+		}
+		return fmt.Sprintf("s!%d!1", r.Intn(13))
+	}
+	var genExpr func(depth int, nvec *int, wantVec bool) (string, bool)
+	genExpr = func(depth int, nvec *int, wantVec bool) (string, bool) {
+		leaf := depth >= 3 || (depth > 0 && r.Intn(3) == 0)
+		if leaf {
+			if wantVec || (*nvec < 3 && r.Intn(3) != 0) {
+				if *nvec >= 3 && !wantVec {
+					return scalar(), false
+				}
+				*nvec++
+				return "v!" + operand(fam[r.Intn(nmet)]), true
+			}
+			return scalar(), false
+		}
+		if depth > 0 && r.Intn(9) == 0 { // unary minus over a vector expression
+			x, _ := genExpr(depth+1, nvec, true)
+			return "n!" + x, true
+		}
+		// shape: vector∘vector (mostly), vector∘scalar, scalar∘vector, scalar∘scalar (only below another operator)
+		shape := []int{0, 0, 0, 1, 2}[r.Intn(5)]
+		if !wantVec && depth > 0 && r.Intn(2) == 0 {
+			shape = 3
+		}
+		if *nvec >= 2 && shape == 0 {
+			shape = 1
+		}
+		switch shape {
+		case 0:
+			op := mBinOps[r.Intn(len(mBinOps))]
+			b := "0"
+			if isCmp(op) && r.Intn(3) == 0 {
+				b = "1"
+			}
+			mk, ls := "d", "-"
+			if r.Intn(5) < 2 {
+				mk = []string{"on", "on", "ig"}[r.Intn(3)]
+				var pick []string
+				for _, k := range keyFam {
+					if r.Intn(2) == 0 {
+						pick = append(pick, k)
+					}
+				}
+				if len(pick) == 0 {
+					pick = []string{keyFam[r.Intn(len(keyFam))]}
+				}
+				ls = strings.Join(pick, "+")
+			}
+			l, _ := genExpr(depth+1, nvec, true)
+			rr, _ := genExpr(depth+1, nvec, true)
+			return fmt.Sprintf("o!%s!%s!%s!%s!%s!%s", op, b, mk, ls, l, rr), true
+		case 1, 2:
+			op := []string{"add", "sub", "mul", "div", "mod", "pow", "gt", "lt", "ge", "le", "eq", "ne", "div", "mul", "gt"}[r.Intn(15)]
+			b := "0"
+			if isCmp(op) && r.Intn(3) == 0 {
+				b = "1"
+			}
+			v, _ := genExpr(depth+1, nvec, true)
+			sc := scalar()
+			if r.Intn(4) == 0 { // a computed scalar
+				sc = fmt.Sprintf("o!%s!0!d!-!%s!%s", []string{"add", "sub", "mul"}[r.Intn(3)], scalar(), scalar())
+			}
+			if shape == 1 {
+				return fmt.Sprintf("o!%s!%s!d!-!%s!%s", op, b, v, sc), true
+			}
+			return fmt.Sprintf("o!%s!%s!d!-!%s!%s", op, b, sc, v), true
+		default:
+			return fmt.Sprintf("o!%s!0!d!-!%s!%s", []string{"add", "sub", "mul"}[r.Intn(3)], scalar(), scalar()), false
+		}
+	}
+	_ = isSet
+	for q := 2 + r.Intn(4); q > 0; q-- {
+		nv := 0
+		x, vec := genExpr(0, &nv, true)
+		if !vec {
+			continue
+		}
+		if r.Intn(6) == 0 {
+			x = "n!" + x
+		}
+		qtoks = append(qtoks, fmt.Sprintf("bx!%d!%d!%s", start, end, x))
+	}
 	toks := []string{"me"}
 	for _, s := range sers {
 		toks = append(toks, "S", s.token())
@@ -466,7 +560,60 @@ func genE2EMCase(r *rand.Rand, tags map[string]int) string {
 		sers = append(sers, mser{name: name, labels: sets[i%len(sets)]})
 	}
 	// special classes (rare): same tag set under two names, TSID-preimage collision, no tags, delimiter / escaped values
-	switch r.Intn(90) {
+	switch r.Intn(112) {
+	case 90, 91, 92, 93, 94:
+		// the same value (and metric name) spelled with and without a JSON escape, alternating point by point within
+		// one series: one series, whatever the spelling
+		s := &sers[r.Intn(len(sers))]
+		if len(s.labels) > 0 {
+			s.labels = append([]mkv(nil), s.labels...)
+			i := r.Intn(len(s.labels))
+			if s.labels[i].v != "" && s.labels[i].v[0] < 0x80 && !s.labels[i].num {
+				s.labels[i].esc = true
+			}
+		}
+		if r.Intn(2) == 0 {
+			s.escName = true
+		}
+		tags["spelled-with-escape"]++
+	case 95, 96, 97, 98, 99:
+		// a tag value that is not a string or a number (true, null, a string with an invalid escape sequence): every
+		// datapoint of that series must be rejected and leave nothing behind; a sibling with the remaining tags is served
+		base := append([]mkv(nil), sers[0].labels...)
+		if len(base) == 0 {
+			base = []mkv{{k: "host", v: "web1"}}
+			sers[0].labels = base
+		}
+		bk := []string{"dbg", "a0", "zz", "flag"}[r.Intn(4)] // sorts before / after the other keys
+		bad := append(append([]mkv(nil), base...), mkv{k: bk, v: "w", bad: []string{"t", "n", "q"}[r.Intn(3)]})
+		if bad[len(bad)-1].bad == "t" {
+			bad[len(bad)-1].v = "true"
+		} else if bad[len(bad)-1].bad == "n" {
+			bad[len(bad)-1].v = "null"
+		}
+		sers = append(sers, mser{name: sers[0].name, labels: bad})
+		if r.Intn(2) == 0 { // … and one that has the key with a proper value
+			sers = append(sers, mser{name: sers[0].name, labels: append(append([]mkv(nil), base...), mkv{k: bk, v: "ok"})})
+		}
+		tags["tag-value-not-a-string"]++
+	case 100, 101, 102, 103, 104, 105:
+		// the label value "*" (and values that contain it): k="*" selects that value only
+		base := append([]mkv(nil), sers[0].labels...)
+		if len(base) == 0 {
+			base = []mkv{{k: "host", v: "web1"}}
+		}
+		i := r.Intn(len(base))
+		x, y := append([]mkv(nil), base...), append([]mkv(nil), base...)
+		x[i].v, x[i].num = "*", false
+		y[i].v, y[i].num = []string{"a*", "**", "b", ".*"}[r.Intn(4)], false
+		sers[0].labels = x
+		sers = append(sers, mser{name: sers[0].name, labels: y})
+		if len(base) > 1 && r.Intn(2) == 0 { // … and a series without the key
+			z := append([]mkv(nil), base...)
+			z = append(z[:i], z[i+1:]...)
+			sers = append(sers, mser{name: sers[0].name, labels: z})
+		}
+		tags["value-is-star"]++
 	case 0:
 		if nser >= 2 {
 			sers[1].name = fam[1]
@@ -667,6 +814,26 @@ func genE2EMCase(r *rand.Rand, tags map[string]int) string {
 		p := r.Intn(len(refs) + 1)
 		cut[p] = append(cut[p], "br")
 	}
+	if r.Intn(7) == 0 {
+		// CRASH + RESTART somewhere in the history (WAL recovery); mostly right after a pass of the tags-tree flush timer
+		// (every series is then reachable after the restart), sometimes without one (recorded finding crash-before-tags-flush)
+		p := r.Intn(len(refs) + 1)
+		if r.Intn(4) != 0 {
+			cut[p] = append(cut[p], "tf")
+			tags["crash:after-tags-flush"]++
+		} else {
+			if r.Intn(2) == 0 && p > 0 {
+				p2 := r.Intn(p)
+				cut[p2] = append(cut[p2], "tf")
+			}
+			tags["crash:tags-flush-not-just-before"]++
+		}
+		cut[p] = append(cut[p], "cr")
+		if r.Intn(5) == 0 { // a second crash later on
+			p3 := p + r.Intn(len(refs)+1-p)
+			cut[p3] = append(cut[p3], "tf", "cr")
+		}
+	}
 	// protocol: OTSDB JSON only (most cases), remote write only, or mixed point by point within every series
 	proto := []int{0, 0, 0, 0, 1, 2, 2}[r.Intn(7)]
 	tags[fmt.Sprintf("proto=%s", []string{"otsdb", "remote-write", "mixed"}[proto])]++
@@ -678,9 +845,12 @@ func genE2EMCase(r *rand.Rand, tags map[string]int) string {
 				c = "w"
 			}
 			for _, kv := range sers[refs[k].i].labels {
-				if kv.k == "__name__" { // remote write cannot express a second label named __name__
+				if kv.k == "__name__" || kv.bad != "" || kv.esc { // remote write cannot express a second label named __name__ / JSON spellings
 					c = "p"
 				}
+			}
+			if sers[refs[k].i].escName {
+				c = "p"
 			}
 			hist = append(hist, fmt.Sprintf("%s%d.%d", c, refs[k].i, refs[k].j))
 		}
@@ -788,6 +958,14 @@ func genE2EMCase(r *rand.Rand, tags map[string]int) string {
 		if r.Intn(8) == 0 {
 			v = mValPool[r.Intn(len(mValPool))]
 		}
+		for _, kk := range keysOf { // a label that has the value "*": half of the matchers are k="*" / k!="*"
+			for _, x := range valsOf(kk) {
+				if x == "*" && r.Intn(2) == 0 {
+					tags["q:star-literal-matcher"]++
+					return kk + "~" + []string{"eq", "eq", "ne"}[r.Intn(3)] + "~" + hexs("*")
+				}
+			}
+		}
 		var plain []string
 		for _, x := range vs {
 			if plainRe.MatchString(x) {
@@ -884,6 +1062,15 @@ func genE2EMCase(r *rand.Rand, tags map[string]int) string {
 			tags["q:selector"]++
 		}
 		qtoks = append(qtoks, tok)
+	}
+	if r.Intn(3) == 0 { // the label-values API for a key of the data set (or one that no series has)
+		a, b := full()
+		k := "nosuch"
+		if len(keysOf) > 0 && r.Intn(6) != 0 {
+			k = keysOf[r.Intn(len(keysOf))]
+		}
+		qtoks = append(qtoks, fmt.Sprintf("lv/%d/%d/%s", a, b, k))
+		tags["q:label-values"]++
 	}
 	toks := []string{"me"}
 	for _, s := range sers {
@@ -1172,11 +1359,12 @@ func parseMExprQuery(tok string) (q mQuery, ok bool) {
 			if lv != rv {
 				tagset["expr:vector-scalar"] = true
 			}
-			// a scalar on the left of a parenthesised negative … keep every operand in parentheses
-			if !strings.HasPrefix(l, "(") {
+			// every operand in parentheses, except number literals (the engine recognises a constant operand by its
+			// syntax node: `(11)` is a parenthesised expression for it — not exercised)
+			if !strings.HasPrefix(l, "(") && !mNumLit.MatchString(l) {
 				l = "(" + l + ")"
 			}
-			if !strings.HasPrefix(r, "(") {
+			if !strings.HasPrefix(r, "(") && !mNumLit.MatchString(r) {
 				r = "(" + r + ")"
 			}
 			return "(" + l + " " + opText + " " + r + ")", lv || rv, rest, true
@@ -1196,6 +1384,7 @@ func parseMExprQuery(tok string) (q mQuery, ok bool) {
 }
 
 var mDigits = regexp.MustCompile(`^[0-9]{1,10}$`)
+var mNumLit = regexp.MustCompile(`^[0-9]+(\.[0-9]+)?$`)
 
 func parseMQuery(tok string) (q mQuery, ok bool) {
 	if strings.HasPrefix(tok, "bin!") {
@@ -1347,7 +1536,7 @@ func canonMAnswer(line string, agg bool) string {
 	if resp.Lv != nil {
 		var hv []string
 		for _, v := range resp.Lv {
-			hv = append(hv, hexs(v))
+			hv = append(hv, "x"+hexs(v))
 		}
 		sort.Strings(hv)
 		return "kind=mlv vals=" + strings.Join(hv, ",")
@@ -1488,6 +1677,14 @@ func mGoClasses(sers []mser, escaped bool) []string {
 	if mPreimageCollision(sers) {
 		cl = append(cl, "tsid-preimage-collision")
 	}
+	for _, s := range sers {
+		for _, kv := range s.labels {
+			if strings.Contains(kv.v, ",") { // recorded finding: ids are split on "," — the items of an id are ordered differently open / rotated
+				cl = append(cl, "value-has-comma")
+				return cl
+			}
+		}
+	}
 	return cl
 }
 
@@ -1512,7 +1709,8 @@ func execE2EM(line string) Result {
 		return Result{Out: "bad-op"}
 	}
 	var in bytes.Buffer
-	npts, nro, nbr := 0, 0, 0
+	npts, nro, nbr, ntf, ncr := 0, 0, 0, 0, 0
+	var chunks []string // the input of the worker processes before the last one (each ends with a crash)
 	escaped, rwEscaped, numeric := false, false, false
 	ingested := map[[2]int]bool{}
 	var dpSeries []int // series index of the n-th dp command
@@ -1526,6 +1724,16 @@ func execE2EM(line string) Result {
 		case t == "br":
 			in.WriteString("blockrotate\n")
 			nbr++
+		case t == "tf":
+			in.WriteString("ttflush\n")
+			ntf++
+		case t == "cr":
+			// the WAL timers run once, then the process dies; the next process recovers and goes on
+			in.WriteString("walflush\ncrash\n")
+			chunks = append(chunks, in.String())
+			in.Reset()
+			fmt.Fprintf(&in, "recover\ndpbase %d\n", len(dpSeries))
+			ncr++
 		case strings.HasPrefix(t, "p"), strings.HasPrefix(t, "w"):
 			x := strings.Split(t[1:], ".")
 			if len(x) != 2 {
@@ -1539,8 +1747,8 @@ func execE2EM(line string) Result {
 			if t[0] == 'w' {
 				var ls []string
 				for _, kv := range sers[si].labels {
-					if kv.k == "__name__" {
-						return Result{Out: "bad-op"} // not expressible in remote write: __name__ is the metric name there
+					if kv.k == "__name__" || kv.bad != "" {
+						return Result{Out: "bad-op"} // not expressible in remote write: __name__ is the metric name there, values are strings
 					}
 					ls = append(ls, kv.k+"="+hexs(kv.v))
 					if strings.ContainsAny(kv.v, "\\\"") {
@@ -1591,30 +1799,52 @@ func execE2EM(line string) Result {
 	}
 	for phase := 0; phase < 2; phase++ {
 		for _, q := range qs {
-			fmt.Fprintf(&in, "q %d %d %s\n", q.start, q.end, hexs(q.promql))
+			if q.lv != "" {
+				fmt.Fprintf(&in, "lv %s %d %d\n", hexs(q.lv), q.start, q.end)
+			} else {
+				fmt.Fprintf(&in, "q %d %d %s\n", q.start, q.end, hexs(q.promql))
+			}
 		}
 		if phase == 0 {
 			in.WriteString("rotate\n")
 		}
 	}
-	cmd := exec.Command(os.Args[0], "mworker")
-	cmd.Stdin = &in
+	chunks = append(chunks, in.String())
 	var stdout, stderr bytes.Buffer
-	cmd.Stdout = &stdout
-	cmd.Stderr = &stderr
-	cmd.Env = append(os.Environ(), "GOMEMLIMIT=2GiB", "GOMAXPROCS=4")
-	done := make(chan error, 1)
-	if err := cmd.Start(); err != nil {
-		return Result{Out: "worker-start-failed"}
-	}
-	go func() { done <- cmd.Wait() }()
 	var werr error
-	select {
-	case werr = <-done:
-	case <-time.After(120 * time.Second):
-		cmd.Process.Kill()
-		<-done
-		return Result{Out: "worker-timeout", Fails: []PropFail{{Sig: "e2em-worker/timeout", Msg: "metrics engine worker did not finish within 120 s"}}, Nontrivial: true}
+	dataDir := ""
+	if len(chunks) > 1 { // crash / restart: the processes share one data directory
+		d, err := os.MkdirTemp("", "verifmetcr")
+		if err != nil {
+			return Result{Out: "worker-start-failed"}
+		}
+		dataDir = d
+		defer os.RemoveAll(d)
+	}
+	for ci, chunk := range chunks {
+		cmd := exec.Command(os.Args[0], "mworker")
+		cmd.Stdin = strings.NewReader(chunk)
+		cmd.Stdout = &stdout
+		cmd.Stderr = &stderr
+		cmd.Env = append(os.Environ(), "GOMEMLIMIT=2GiB", "GOMAXPROCS=4")
+		if dataDir != "" {
+			cmd.Env = append(cmd.Env, "VERIF_MW_DIR="+dataDir)
+		}
+		done := make(chan error, 1)
+		if err := cmd.Start(); err != nil {
+			return Result{Out: "worker-start-failed"}
+		}
+		go func() { done <- cmd.Wait() }()
+		select {
+		case werr = <-done:
+		case <-time.After(120 * time.Second):
+			cmd.Process.Kill()
+			<-done
+			return Result{Out: "worker-timeout", Fails: []PropFail{{Sig: "e2em-worker/timeout", Msg: fmt.Sprintf("metrics engine worker %d of %d did not finish within 120 s", ci+1, len(chunks))}}, Nontrivial: true}
+		}
+		if werr != nil {
+			break
+		}
 	}
 	var resLines []string
 	var fails []PropFail
@@ -1698,6 +1928,9 @@ func execE2EM(line string) Result {
 			// latitude: PromQL drops the metric name of an aggregate; the engine prints one of the selected names (or "*")
 			a, b = stripAggNames(a), stripAggNames(b)
 		}
+		if strings.HasPrefix(a, "kind=error") && strings.HasPrefix(b, "kind=error") {
+			a, b = "kind=error", "kind=error" // the messages name files (the error itself is judged by the comparison with the specification)
+		}
 		if a != b {
 			sig := "e2em/open-vs-rotated-differ"
 			cl := mGoClasses(sers, escaped)
@@ -1711,10 +1944,51 @@ func execE2EM(line string) Result {
 			if len(cl) > 0 {
 				sig = "e2em/in-class/" + strings.Join(cl, "+")
 			}
+			if q.bin && strings.Contains(q.promql, " or ") && q.nvec > 2 {
+				// (repaired, c09-25) the ids of a vector that comes from `or` start with different metric names; a later operator
+				// used to cut them at the length of ONE of these names, picked by map iteration order
+				sig = "e2em/in-class/mixed-name-vector-operand"
+			}
+			if q.lv != "" && len(cl) == 0 {
+				// (repaired, c09-24) the rotated tags tree of a key was read for its first metric only
+				names := map[string]bool{}
+				for _, s := range sers {
+					names[s.name] = true
+				}
+				if len(names) > 1 {
+					sig = "e2em/in-class/label-values-first-metric-only"
+				}
+			}
 			fails = append(fails, PropFail{Sig: sig, Msg: fmt.Sprintf("query %d (%s over [%d,%d]) answered differently after one more forced rotation: before %s ; after %s", qi, q.promql, q.start, q.end, trunc(a, 400), trunc(b, 400))})
 		}
 	}
 	tg := []string{fmt.Sprintf("series=%d", len(sers)), fmt.Sprintf("points<=%d", (npts/10+1)*10), fmt.Sprintf("rotations=%d", nro), fmt.Sprintf("blockrotations=%d", nbr)}
+	if ncr > 0 {
+		tg = append(tg, fmt.Sprintf("crash-restarts=%d", ncr), fmt.Sprintf("tags-flushes=%d", ntf))
+	}
+	for _, q := range qs {
+		tg = append(tg, q.tags...)
+		if q.lv != "" {
+			tg = append(tg, "q:label-values")
+		}
+	}
+	for _, s := range sers {
+		if s.escName {
+			tg = append(tg, "name-spelled-with-escape")
+		}
+		for _, kv := range s.labels {
+			if kv.esc {
+				tg = append(tg, "value-spelled-with-escape")
+			}
+			if kv.bad != "" {
+				tg = append(tg, "tag-value-not-a-string")
+			}
+			if kv.v == "*" {
+				tg = append(tg, "value-is-star")
+			}
+		}
+	}
+	tg = dedupStrings(tg)
 	nrw := 0
 	for _, w := range dpRW {
 		if w {
@@ -1863,6 +2137,18 @@ func execE2EMCard(f []string) Result {
 		}
 	}
 	return Result{Out: strings.Join(segs, " | "), Fails: fails, Nontrivial: true, Tags: []string{"cardinality", fmt.Sprintf("series>65535=%v", n > 65535)}}
+}
+
+func dedupStrings(l []string) []string {
+	seen := map[string]bool{}
+	var out []string
+	for _, x := range l {
+		if !seen[x] {
+			seen[x] = true
+			out = append(out, x)
+		}
+	}
+	return out
 }
 
 func utf8Valid(b []byte) bool { return strings.ToValidUTF8(string(b), "\uFFFD") == string(b) }
